@@ -16,7 +16,7 @@
      40 + 40*|s| and the work (calls of next() + bytes scanned by strings.Index) at most 40*|s| + 24.
    The unicode classes (unicode.IsLetter, unicode.IsDigit) are arbitrary predicates false of eof. *)
 (* source tie by translation: the lemmas of these files are obligations of this property *)
-From Soy Require Import Proofs.SourceTieLexer Proofs.SourceTieExpr Proofs.SourceTieParser Proofs.SourceTieText Proofs.SourceTieQuote.
+From Soy Require Import Proofs.SourceTieLexer Proofs.SourceTieExpr Proofs.SourceTieParser Proofs.SourceTieText Proofs.SourceTieQuote Proofs.SourceTieUnquote.
 From Soy Require Import Model.Bytes Model.Outcome Model.Ast Model.Token Model.ExprParser Model.Parser Generated.Tables Model.Lexer Model.ParseBytes Spec.LexSpec
   Proofs.LexerPrim Proofs.LexerProofs Proofs.LexShift Proofs.NumLitProofs Proofs.ParserMeasure Proofs.ParserProofs Proofs.LexParseBridge.
 Open Scope Z_scope.
